@@ -59,7 +59,7 @@ def _install_ews_setattr(plan, rt):
 
     def __setattr__(self, k, v):
         object.__setattr__(self, k, v)
-        if k == "_status":
+        if k in ("_status", "_result", "_error"):
             hits[0] += 1
             time.sleep(delay)
 
